@@ -275,3 +275,12 @@ Proof.
     assert (2 ^ 14286 <= 2 ^ N.size n) by (apply N.pow_le_mono_r; lia).
     assert (X : 2 ^ 14286 = 2 * 2 ^ 14285) by (change 14286 with (N.succ 14285); apply N.pow_succ_r'). lia.
 Qed.
+
+(** the model prescribes that two printings of one value agree *)
+Lemma print_deterministic_model : forall c,
+  match model c with OOk _ _ _ _ det => det = true | _ => True end.
+Proof.
+  intros [via pc v orc badre]. unfold model. destruct (vexists long_int v); [exact I|].
+  destruct (read_text _ _ _ _ _ _ _) as [[|b r]| |]; try exact I.
+  destruct ((via =? 1) && value_eqb false b (VKw None kw_eofthrow)); [exact I|reflexivity].
+Qed.
